@@ -111,7 +111,7 @@ pub fn ref_filter(spec: &FilterSpec, rs: &RefSentence, n_tags: usize) -> RefSent
 
 const CLUSTERS: &[&str] = &[
     "👨\u{200d}👩\u{200d}👧", "🇯🇵", "🇯🇵🇺", "が\u{3099}", "e\u{0301}", "\r\n", "\n\r", "👍🏽", "각", "ᄀ\u{1161}\u{11a8}", "a\u{200d}", "\u{200d}👩",
-    "क्\u{200d}ष", "\u{0600}a", "कि", "ก\u{0e33}", "\u{0903}",
+    "क्\u{200d}ष", "\u{0600}a", "कि", "ก\u{0e33}", "\u{0903}", "ｶﾞ", "ﾊﾟ", "\u{0600}1", "\u{0600}あ", "1\u{fe0f}\u{20e3}",
 ];
 
 fn c15_sentence(rng: &mut Rng) -> RefSentence {
@@ -180,6 +180,57 @@ fn c15_rules(rng: &mut Rng, rs: &RefSentence) -> Vec<(String, Vec<Option<String>
 
 pub fn apply_and_check(ctx: &mut Ctx, prop: &str, spec: &FilterSpec, rs: &RefSentence) -> Option<RefSentence> {
     apply_and_check_with(ctx, prop, spec, rs, false)
+}
+
+thread_local! {
+    /// tag prediction requested, model without tag models
+    static TAGLESS: vaporetto::Predictor = {
+        let m = vgen::mirror::ModelData {
+            char_ngram_model: vec![vgen::mirror::NgramData { ngram: "b".into(), weights: vec![3, -3] }],
+            bias: 1,
+            char_window_size: 1,
+            type_window_size: 1,
+            ..Default::default()
+        };
+        new_predictor(&m, true).expect("tag-less predictor")
+    };
+}
+
+/// A tagged sentence re-analysed by a tag-predicting predictor whose model has no tag model (`predict`,
+/// `fill_tags`), then filtered: the state the filter sees is read first and is the basis of the expectation.
+pub fn filter_after_tagless_refill(ctx: &mut Ctx, prop: &str, spec: &FilterSpec) {
+    let r = guard(|| {
+        TAGLESS.with(|p| {
+            let prepare = || {
+                let mut s = vaporetto::Sentence::from_tokenized("ab/X/Y c/Z d").unwrap();
+                p.predict(&mut s);
+                s.fill_tags();
+                s
+            };
+            let before = observe(&prepare(), false);
+            let f = spec.build();
+            let mut s = prepare();
+            f.filter(&mut s);
+            (before, observe(&s, false))
+        })
+    });
+    ctx.eval(1);
+    match r {
+        Ok((before, after)) => {
+            let (Ok(rs0), Ok(got)) = (before.to_ref(), after.to_ref()) else {
+                ctx.violation(&format!("{prop}:sentence_inconsistent_after_filter:{}", spec.name()), after.to_json());
+                return;
+            };
+            let want = ref_filter(spec, &rs0, before.n_tags);
+            if got.labels != want.labels || got.tags != want.tags || after.n_tags != before.n_tags || got.chars != want.chars {
+                ctx.violation(
+                    &format!("{prop}:filter_result_differs_from_rule_after_tagless_refill:{}", spec.name()),
+                    J::obj(vec![("before", before.to_json()), ("after", after.to_json()), ("expected", ref_json(&want))]),
+                );
+            }
+        }
+        Err(p) => ctx.violation(&format!("{prop}:filter_panicked:{}:{}", spec.name(), panic_site(&p)), J::obj(vec![("panic", J::s(&p)), ("state", J::s("tagged sentence re-analysed by a predictor without tag models"))])),
+    }
 }
 
 /// `via_fallback`: `rs` must be the documented fallback sentence (one space); the object is brought
@@ -295,6 +346,10 @@ pub fn run_c15(ctx: &mut Ctx, from: u64, to: u64) {
             fspecs.push(FilterSpec::Tagger(vec![("x".to_string(), vec![Some("R".to_string())])]));
             for spec in &fspecs {
                 apply_and_check_with(ctx, "C15", spec, &fb, true);
+            }
+            fspecs.push(FilterSpec::Tagger(vec![("c".to_string(), vec![Some("R".to_string()), None, Some("S".to_string())]), ("a".to_string(), vec![Some("Q".to_string())])]));
+            for spec in &fspecs {
+                filter_after_tagless_refill(ctx, "C15", spec);
             }
             ctx.count("fallback_sentences_filtered", 1);
         }
